@@ -523,7 +523,7 @@ Section Server.
 
   (* -------------------------------------------------------------------------------------- *)
   Definition poll_fuel (s : sstate) : nat :=
-    2 + tfuel (s_t s) + length (s_cancels s) + length (s_timers s) + length (s_respq s).
+    2 + 2 * tfuel (s_t s) + length (s_cancels s) + length (s_timers s) + length (s_respq s).
 
   Definition gauges (s : sstate) : list obs :=
     if s_dropped s then []
